@@ -304,9 +304,9 @@ def _conj_view(b, c):
     return b.A, tuple(b.s), tuple(b.n)
 
 
-def _own_conflict(xa, ia, xb, ib):
+def _own_conflict(a, ia, b, ib):
     """True if the stored sectors of the paired legs have conflicting dimensions"""
-    oa, ob = MD.native_spaces(xa), MD.native_spaces(xb)
+    oa, ob = a.own, b.own
     return any(not GL.consistent(oa[i], ob[j]) for i, j in zip(ia, ib))
 
 
@@ -355,7 +355,7 @@ def _run(case, op, a, b, cfg, sym, mods, seed, cache):
         Bm, sb, nb_ = _conj_view(b, conj[1])
         if any(sa[i] != -sb[j] for i, j in zip(ia, ib)):
             return _expect_err(TC.call(f), "tensordot with non-matching signatures")
-        if _own_conflict(xa, ia, xb, ib):   # an error is raised only when two matching blocks disagree
+        if _own_conflict(a, ia, b, ib):   # an error is raised only when two matching blocks disagree
             return _unspecified(TC.call(f), "tensordot with conflicting sector dimensions")
         if any(not GL.consistent(a.spaces[i], b.spaces[j]) for i, j in zip(ia, ib)):
             return _unspecified(TC.call(f), "tensordot")
@@ -393,7 +393,7 @@ def _run(case, op, a, b, cfg, sym, mods, seed, cache):
         case['rel'] = '+'.join(GL.relation(a.spaces[i], b.spaces[i]) for i in range(rank)) or 'scalar'
         if case.get('expect') == 'err':
             return _expect_err(TC.call(f), op)
-        owns = [MD.native_spaces(x) for x in xs]
+        owns = [o.own for o in ops]
         if any(not GL.consistent(o1[i], o2[i]) for o1 in owns for o2 in owns for i in range(rank)):
             return _expect_err(TC.call(f), f"{op} with conflicting sector dimensions")
         if any(not GL.consistent(o1.spaces[i], o2.spaces[i]) for o1 in ops for o2 in ops for i in range(rank)):
@@ -420,7 +420,7 @@ def _run(case, op, a, b, cfg, sym, mods, seed, cache):
         Bm, sb, nb_ = _conj_view(b, conj[1])
         if any(x != -y for x, y in zip(sa, sb)):
             return _expect_err(TC.call(f), "vdot with non-matching signatures")
-        if _own_conflict(xa, range(rank), xb, range(rank)):
+        if _own_conflict(a, range(rank), b, range(rank)):
             st, r = TC.call(f)
             # legs conflict, but vdot only looks at common blocks: an error is required only if a common block differs
             return _unspecified((st, r), 'vdot')
@@ -442,7 +442,7 @@ def _run(case, op, a, b, cfg, sym, mods, seed, cache):
         dsp = a.spaces[0]
         if xb.isdiag:
             axp = 0
-        own_d, own_b = MD.native_spaces(xa), MD.native_spaces(xb)
+        own_d, own_b = a.own, b.own
         if not GL.consistent(own_d[0], own_b[axp]):
             if op == 'apply_mask':   # a mask of the wrong length is a caller error; apply_mask does not validate it
                 TC.call(f)
